@@ -697,6 +697,15 @@ def dexp_of_reader(t):
     raise ValueError(t)
 
 
+def model_view(real):
+    """what the model is expected to print for a real observation: allocation counters are not
+    part of the line; a process that was killed because the allocator or the stack gave out
+    cannot be exhibited by the model, which runs out of fuel on such an input instead"""
+    if real.startswith("ABORT"):
+        return "FUEL"
+    return strip_alloc(real)
+
+
 def k3(groups, tag):
     """groups: list of (ast json, [(type-or-reader, off, hex, real line)]).  Compares the
     model's line with the real one (alloc= fields removed).  Returns (n, disagreements)
@@ -731,7 +740,7 @@ def k3(groups, tag):
                 kind, off, hx, real = cases[ci]
                 kk = dexp_of_reader(kind) if kind.startswith("@") else "(KType %s)" % ct.cstr(kind)
                 rows.append("(%d%%N, %s, %d%%N, %s, %s)" % (len(local), kk, off, ct.cstr(hx),
-                                                          ct.cstr(strip_alloc(real))))
+                                                          ct.cstr(model_view(real))))
                 local.append((gi, ci))
             body.append("Definition a%d : ast := %s." % (k, ct.ast(ast)))
             body.append("Definition c%d : list (N * k3_kind * N * string * string) := [%s]." % (k, ";\n".join(rows)))
